@@ -46,6 +46,7 @@ func instrumentCImpl(fset *token.FileSet, f *ast.File, rel string) error {
 	if ci.err != nil {
 		return ci.err
 	}
+	rewriteRecvInExpr(f)
 	if err := ci.verify(f); err != nil {
 		return err
 	}
@@ -380,8 +381,17 @@ func (ci *cinst) stmt(st ast.Stmt, line int, out []ast.Stmt) []ast.Stmt {
 		}
 	case *ast.RangeStmt:
 		if se, ok := x.X.(*ast.SelectorExpr); ok && ci.mapFld[se.Sel.Name] {
-			if x.Value != nil {
-				ci.fail(x.Pos(), "range with key and value over map field %s: not supported", se.Sel.Name)
+			if x.Value != nil && x.Key != nil {
+				// for k, v := range x.m { body }  ->  for _, k := range vsched.Keys(x.m) { v := x.m[k]; body }
+				if id, ok := x.Value.(*ast.Ident); !ok || id.Name != "_" {
+					get := &ast.AssignStmt{Lhs: []ast.Expr{x.Value}, Tok: x.Tok, Rhs: []ast.Expr{&ast.IndexExpr{X: cloneExpr(x.X), Index: x.Key}}}
+					ci.gen[get] = true
+					x.Body.List = append([]ast.Stmt{get}, x.Body.List...)
+				}
+				x.Value = nil
+				if kid, ok := x.Key.(*ast.Ident); ok && kid.Name == "_" {
+					ci.fail(x.Pos(), "range over map field %s with a blank key and a value: not supported", se.Sel.Name)
+				}
 			}
 			if x.Key != nil {
 				x.Value = x.Key
@@ -590,4 +600,121 @@ func (ci *cinst) verify(f *ast.File) error {
 		return true
 	})
 	return err
+}
+
+// rewriteRecvInExpr turns a channel receive that is an operand of a larger expression (append(x, <-ch...), f(<-ch),
+// a + <-ch, return <-ch) into vsched.Recv(ch). Receives that are the communication of a select case, and the statement
+// forms handled by list(), are left alone.
+func rewriteRecvInExpr(f *ast.File) {
+	comm := map[ast.Node]bool{}
+	ast.Inspect(f, func(n ast.Node) bool {
+		if cc, ok := n.(*ast.CommClause); ok && cc.Comm != nil {
+			switch c := cc.Comm.(type) {
+			case *ast.ExprStmt:
+				comm[c.X] = true
+			case *ast.AssignStmt:
+				for _, r := range c.Rhs {
+					comm[r] = true
+				}
+			}
+		}
+		return true
+	})
+	var fix func(e *ast.Expr)
+	fix = func(e *ast.Expr) {
+		if e == nil || *e == nil {
+			return
+		}
+		if u, ok := (*e).(*ast.UnaryExpr); ok && u.Op == token.ARROW && !comm[u] {
+			fix(&u.X)
+			*e = &ast.CallExpr{Fun: &ast.SelectorExpr{X: ast.NewIdent("vsched"), Sel: ast.NewIdent("Recv")}, Args: []ast.Expr{u.X}}
+			return
+		}
+		switch x := (*e).(type) {
+		case *ast.CallExpr:
+			fix(&x.Fun)
+			for i := range x.Args {
+				fix(&x.Args[i])
+			}
+		case *ast.BinaryExpr:
+			fix(&x.X)
+			fix(&x.Y)
+		case *ast.UnaryExpr:
+			if !comm[x] {
+				fix(&x.X)
+			}
+		case *ast.ParenExpr:
+			fix(&x.X)
+		case *ast.IndexExpr:
+			fix(&x.X)
+			fix(&x.Index)
+		case *ast.SliceExpr:
+			fix(&x.X)
+			fix(&x.Low)
+			fix(&x.High)
+			fix(&x.Max)
+		case *ast.SelectorExpr:
+			fix(&x.X)
+		case *ast.StarExpr:
+			fix(&x.X)
+		case *ast.TypeAssertExpr:
+			fix(&x.X)
+		case *ast.KeyValueExpr:
+			fix(&x.Value)
+		case *ast.CompositeLit:
+			for i := range x.Elts {
+				fix(&x.Elts[i])
+			}
+		}
+	}
+	ast.Inspect(f, func(n ast.Node) bool {
+		switch x := n.(type) {
+		case *ast.AssignStmt:
+			for i := range x.Rhs {
+				if u, ok := x.Rhs[i].(*ast.UnaryExpr); ok && u.Op == token.ARROW {
+					continue // v := <-ch / v, ok := <-ch: statement forms (list) or select communications
+				}
+				fix(&x.Rhs[i])
+			}
+			for i := range x.Lhs {
+				fix(&x.Lhs[i])
+			}
+		case *ast.ExprStmt:
+			if u, ok := x.X.(*ast.UnaryExpr); ok && u.Op == token.ARROW {
+				return true
+			}
+			fix(&x.X)
+		case *ast.ReturnStmt:
+			for i := range x.Results {
+				fix(&x.Results[i])
+			}
+		case *ast.IfStmt:
+			fix(&x.Cond)
+		case *ast.ForStmt:
+			fix(&x.Cond)
+		case *ast.SwitchStmt:
+			fix(&x.Tag)
+		case *ast.SendStmt:
+			fix(&x.Value)
+		case *ast.IncDecStmt:
+			fix(&x.X)
+		case *ast.DeferStmt:
+			for i := range x.Call.Args {
+				fix(&x.Call.Args[i])
+			}
+		case *ast.GoStmt:
+			for i := range x.Call.Args {
+				fix(&x.Call.Args[i])
+			}
+		case *ast.ValueSpec:
+			for i := range x.Values {
+				fix(&x.Values[i])
+			}
+		case *ast.CaseClause:
+			for i := range x.List {
+				fix(&x.List[i])
+			}
+		}
+		return true
+	})
 }
